@@ -66,6 +66,18 @@ def handle : Handler := fun op args impl =>
     let rows ← decRows rows
     let exp := rows.map fun r => (r.1, r.2.map fun c => if 65 ≤ c ∧ c ≤ 90 then c + 32 else c)
     some ⟨encRows (toLowerRows rows), verdictOf (impl == encRows exp) "tolower-spec"⟩
+  | "casehex", [dir, h] => do
+    -- bytes >= 0x80 are outside the residue alphabets and have no model; what the property still demands of such a
+    -- row: the transform keeps its length, and an ASCII position changes in letter case only
+    let inp ← bytesOfHex h
+    let up := dir == "up"
+    let f : Byte → Byte := fun c =>
+      if up then (if 97 ≤ c ∧ c ≤ 122 then c - 32 else c) else (if 65 ≤ c ∧ c ≤ 90 then c + 32 else c)
+    match bytesOfHex impl with
+    | none => some ⟨"unparsable", "fail:unparsable"⟩
+    | some out =>
+      let ok := out.length == inp.length && (inp.zip out).all fun (x, y) => x ≥ 128 || y == f x
+      some ⟨if ok then impl else hexOfBytes (inp.map f), verdictOf ok "case-transform-changes-more-than-letter-case"⟩
   | "unalign", [rows] => do
     let rows ← decRows rows
     let m := rows.map fun r => (r.1, ungap r.2)
